@@ -1,4 +1,68 @@
 import XPathV.Model.Api
-/-! # Property C14 — theorems (placeholder header; filled in below) -/
+import XPathV.Lemmas.Facts
+/-!
+# C14 — name tests, namespaces and name functions identify nodes as documented
+-/
 namespace XPathV.Theorems.C14
+open XPathV XPathV.Model XPathV.Facts NumAlg
+
+/-- without a namespace map a prefixed or unprefixed name test matches exactly the nodes of the
+principal type whose prefix and local name are equal to the test's -/
+theorem nametest_noNS (d : Doc) (cfg : ECfg) (a : AxisInfo) (r : Ref) (hn : a.hasNS = false) (hl : a.lname ≠ "") :
+    nodeTestM d cfg a r = ((a.typeTest == nodeType d r || a.typeTest == .all) &&
+      (a.lname == localName d r && a.pfx == prefixOf d r)) := by
+  simp [nodeTestM, hn, hl]
+
+/-- an unprefixed test matches only unprefixed nodes -/
+theorem unprefixed_matches_unprefixed (d : Doc) (cfg : ECfg) (a : AxisInfo) (r : Ref) (hn : a.hasNS = false)
+    (hl : a.lname ≠ "") (hp : a.pfx = "") (h : nodeTestM d cfg a r = true) : prefixOf d r = "" := by
+  rw [nametest_noNS d cfg a r hn hl] at h
+  simp only [Bool.and_eq_true, beq_iff_eq] at h
+  rw [← h.2.2, hp]
+
+/-- with a binding for the prefix (CompileWithNS) and a navigator exposing URIs, a prefixed test
+matches by (namespace URI, local name), whatever prefix the document uses -/
+theorem nametest_NS (d : Doc) (cfg : ECfg) (a : AxisInfo) (r : Ref) (hn : a.hasNS = true) (hi : cfg.nsIface = true)
+    (hl : a.lname ≠ "") :
+    nodeTestM d cfg a r = ((a.typeTest == nodeType d r || a.typeTest == .all) &&
+      (a.lname == localName d r && a.nsURI == nsURL d r)) := by
+  simp [nodeTestM, hn, hi, hl]
+
+/-- the model's node test is the specification's (§2.3) when the navigator exposes URIs -/
+theorem nodeTest_spec (d : Doc) (cfg : ECfg) (a : AxisInfo) (r : Ref) (hi : cfg.nsIface = true) (hl : a.lname ≠ "") :
+    nodeTestM d cfg a r = Spec.nodeTest d a r := by
+  unfold nodeTestM Spec.nodeTest
+  simp only [hi, hl, ne_eq, not_false_eq_true, bne_iff_ne, true_or, ↓reduceIte, Bool.true_and]
+  rw [Bool.or_comm]
+  cases a.hasNS <;> simp
+
+/-- an unbound prefix under a namespace map is a compile error -/
+theorem unbound_prefix_error (cfg : PCfg) (m : List (String × String)) (inp : Ast) (axis : String) (mt : NType) (st st1 : PState)
+    (hns : cfg.ns = some m) (ht : st.s.typ = .name) (hnf : (st.s.canBeFunc && isNodeType st.s) = false)
+    (hp : st.s.pfx ≠ "") (hl : m.lookup st.s.pfx = none) (hnext : st.next = .ok st1) :
+    parseNodeTest cfg inp axis mt st = .error .prefixUndefined := by
+  simp [parseNodeTest, ht, hnf, hnext, hns, hl, hp, bind, Except.bind]
+
+variable {F : Type} [NumAlg F]
+
+/-- `local-name()` / `name()` without argument report the context node -/
+theorem local_name_context (d : Doc) (cfg : ECfg) (c : Ref) :
+    callFn (F := F) d cfg "local-name" .nil c [] none = .ok (.str (localName d c)) := by
+  simp [callFn]
+
+theorem name_context (d : Doc) (cfg : ECfg) (c : Ref) :
+    callFn (F := F) d cfg "name" .nil c [] none =
+      .ok (.str (if prefixOf d c == "" then localName d c else prefixOf d c ++ ":" ++ localName d c)) := by
+  simp [callFn]
+
+/-- with a node-set argument they report its first node, and "" for the empty set -/
+theorem namespace_uri_first (d : Doc) (cfg : ECfg) (c r : Ref) (rest : List Ref) (hi : cfg.nsIface = true)
+    (a : List (Except EErr (MVal F))) :
+    callFn (F := F) d cfg "namespace-uri" .nil c a (some (r :: rest)) = .ok (.str (nsURL d r)) := by
+  simp [callFn, hi]
+
+theorem name_fn_empty (d : Doc) (cfg : ECfg) (c : Ref) (a : List (Except EErr (MVal F))) :
+    callFn (F := F) d cfg "name" .nil c a (some []) = .ok (.str "") := by
+  simp [callFn]
+
 end XPathV.Theorems.C14
